@@ -125,7 +125,7 @@ class PyvisEnv:
         return self.LAB_(self.rv, p)
 
     def label(self, x):
-        return If(self.rv != NONE, T.cbv1(self.rv, x), T.hexid(x))
+        return If(T.given(self.rv), T.cbv1(self.rv, x), T.hexid(x))
 
     def isdir(self, l):
         return self.ct.is_a(l, "DirectedEdge")
@@ -403,15 +403,15 @@ class RenderEnv:
 
     def r(self, x):
         """rendering of one vertex: rfunc(x) (its str()), or repr(x)"""
-        return If(self.rf != NONE, T.cbs1(self.rf, x), T.py_repr(x))
+        return If(T.given(self.rf), T.cbs1(self.rf, x), T.py_repr(x))
 
     def nbs(self, v):
         nb = NB(self.S, v, z3.IntVal(0), z3.IntVal(2), NONE)       # FORWARD neighbours in neighbors() order
-        return If(self.sk != NONE, T.sortedby(self.sk, nb), nb)
+        return If(T.given(self.sk), T.sortedby(self.sk, nb), nb)
 
     def order(self):
         m = self.S.members(self.uni)
-        return If(self.sk != NONE, T.sortedby(self.sk, m), m)
+        return If(T.given(self.sk), T.sortedby(self.sk, m), m)
 
     def J(self, q):
         return self.J_(self.rf, q)
